@@ -129,3 +129,14 @@ package trafficshape
 //@   ensures[per-connection-buckets-released] forall k string :: has(c.LocalBuckets, k) ==> c.LocalBuckets[k].ReadBucket.bclosed && c.LocalBuckets[k].WriteBucket.bclosed
 //@   loop 0 invariant forall k string :: visited(k) ==> c.LocalBuckets[k].ReadBucket.bclosed && c.LocalBuckets[k].WriteBucket.bclosed
 //@   loop 0 invariant forall o *Bucket :: old(o.bclosed) ==> o.bclosed
+
+// ---------------------------------------------------------------------------------------------
+// C18: validation of a shape's throttles. A configuration is only accepted when consecutive throttles (sorted by
+// start) do not overlap; an open-ended throttle ("-1") is only allowed in the last position.
+//@ func getActionsFromThrottles
+//@   serves C18
+//@   safe index
+//@   requires forall i int :: 0 <= i && i < len(throttles) ==> throttles[i] != nil
+//@   ensures[accepted-throttles-do-not-overlap-and-only-the-last-is-open-ended] result1 == nil ==>
+//@        (forall k int :: 0 <= k && k < len(throttles) - 1 ==> throttles[k].ByteEnd != -1 && throttles[k].ByteEnd <= throttles[k+1].ByteStart)
+//@   loop 0 invariant forall k int :: 0 <= k && k <= rangeindex && k < len(throttles) - 1 ==> throttles[k].ByteEnd != -1 && throttles[k].ByteEnd <= throttles[k+1].ByteStart
